@@ -279,12 +279,16 @@ func (e *Eng) doCall(fr *Frame, st *State, instr ssa.Instruction, cc *ssa.CallCo
 	}
 	name := calleeName(cc)
 	for _, ss := range e.fc.Sites {
-		if ss.Callee != name && !strings.HasSuffix(name, "."+ss.Callee) && !strings.HasSuffix(name, ")."+ss.Callee) {
+		if !calleeMatches(name, ss.Callee) {
 			continue
 		}
 		if e.siteOrdinal(instr, cc, ss.Callee) != ss.N {
 			continue
 		}
+		if e.siteHit == nil {
+			e.siteHit = map[*SiteSpec]bool{}
+		}
+		e.siteHit[ss] = true
 		vars := map[string]Val{}
 		var res Val
 		if v, ok := instr.(ssa.Value); ok {
@@ -350,7 +354,7 @@ func (e *Eng) siteOrdinal(instr ssa.Instruction, cc *ssa.CallCommon, callee stri
 				continue
 			}
 			n := calleeName(c)
-			if n == callee || strings.HasSuffix(n, "."+callee) || strings.HasSuffix(n, ")."+callee) {
+			if calleeMatches(n, callee) {
 				all = append(all, cs{in, in.Pos()})
 			}
 		}
@@ -852,9 +856,14 @@ func ghostKey(v Val) T {
 			if s, ok := x.Boxed.(*SliceV); ok {
 				return s.B
 			}
+			if s, ok := x.Boxed.(*StrV); ok {
+				return s.B
+			}
 		}
 		return x.V
 	case *SliceV:
+		return x.B
+	case *StrV:
 		return x.B
 	}
 	return refOf(v)
@@ -1970,4 +1979,19 @@ func (e *Eng) localAt(fr *Frame, st *State, at ssa.Instruction, name string) Val
 		}
 	}
 	panic(unsupportedErr{fmt.Sprintf("callsite clause in %s: cannot resolve local %q", e.fn, name)})
+}
+
+
+// calleeMatches: a callsite clause names its callee by full name or by any suffix that starts at a
+// package, type or function boundary ("tls.Client", "Client", "(*Conn).Handshake", "Handshake").
+func calleeMatches(full, short string) bool {
+	if full == short {
+		return true
+	}
+	for _, sep := range []string{".", ").", "/"} {
+		if strings.HasSuffix(full, sep+short) {
+			return true
+		}
+	}
+	return false
 }
